@@ -71,7 +71,7 @@ def _u(*groups):
 
 
 RULES = {
-    "C01": _u(SCHED, LINKDATA, TIMEAD, ("R40c", link.r40c_shared_conduit)),
+    "C01": _u(SCHED, LINKDATA, TIMEAD, ("R40c", link.r40c_shared_conduit), ("R06s", life.r06s_start_time), ("R14", connect.r14_doublepush)),
     "C02": _u(SCHED, ("R30", link.r30_delay)),
     "C03": _u(LIFE, SCHED, CONNECT),
     "C04": _u(SCHED, CONNECT, ("R30", link.r30_delay)),
@@ -99,9 +99,9 @@ RULES = {
     "C17": _u(UNITS, ("R18", link.r18_pullpath), ("R15", data.r15_fields), ("R16u", data.r16u_delivered_units), ("R24", spill2.r24s_format),
               ("R40", link.r40_cbtime), ("R39", buffer.r39_static), ("R17p", link.r17_pushpath)),
     "C18": _u(("R37", data.r37_masktable), ("R37e", data.r37e_masks_equal_layout), ("R37p", data.r37p_prepare_mask), ("R33c", data.r33c_compress), UNITS,
-              ("R15", data.r15_fields), ("R41", misc.r41_masktruth)),
+              ("R15", data.r15_fields), ("R41", misc.r41_masktruth), ("R33", grid.r33_mirror), ("R34", grid.r34_transdir)),
     "C19": _u(VALID, ("R06", life.r06_life), ("R20", link.r20_target)),
-    "C20": _u(STATIC, ("R03", sched.r03_r09_step), ("R09", sched.r09_structure), ("R02", sched.r02_sched_agree), ("R17p", link.r17_pushpath),
+    "C20": _u(STATIC, ("R14", connect.r14_doublepush), ("R03", sched.r03_r09_step), ("R09", sched.r09_structure), ("R02", sched.r02_sched_agree), ("R17p", link.r17_pushpath),
               ("R18", link.r18_pullpath)),
 }
 SCHED_PROPS = {"C01", "C02", "C04", "C13", "C20", "C03"}
